@@ -104,6 +104,30 @@ CLAIMED.update({
     ),
 })
 
+CLAIMED.update({
+    "C03": (
+        "closed-form (TERM) and emission-template (SHAPE) comparison of the naming/declaration/call emitters on FoIR; structural comparison of every shipped package_info signature with go/types (FOI)",
+        "The documented Go representation is produced by ~30 straight-line emitter functions; their canonical closed forms / piece sequences (literals, dynamic pieces, joins, in buffer order) are compared with the documented shapes, so the contract holds for every declaration shape and application arity at once. "
+        "All 103 shipped package_info declarations are parsed by the checker's own reading of the type grammar and agree with the Go signatures.",
+        "Does not decide that emitted declarations compile with arbitrary client code. A rewritten emitter with another canonical form is undecided.",
+        "DESIGN.md §3 C03",
+    ),
+    "C06": (
+        "frozen who-may-reference tables on resolved symbols (confinement of SPACE tokens, offsets, columns), closed forms of the offside comparisons and the affine column tracker, PAIR for the offside stack, interprocedural no-line-end-at-offside-push analysis",
+        "Byte equality across re-layouts is not decided. Decided for all programs and layouts: layout reaches parsing only through the token sequence, column comparisons and one adjacency test; the comparison table and column tracking have their documented closed forms; every offside push is popped; "
+        "a block column is never taken from a line-end token (33 sites, interprocedurally through the block-parser callbacks); psNextNOL has a frozen set of users.",
+        "Rules (g) and (h) were added after two seeded variants. Tabs and multi-line comments before a token on the same line are not covered.",
+        "DESIGN.md §3 C06",
+    ),
+    "C15": (
+        "closed-form (TERM) comparison of the 4-level type parser and constructors, emission templates (SHAPE) of the type printer, base-type table composed from parser name tests and printer arms, who-calls for the five syntactic positions",
+        "The precedence of the type sub-language is entirely in which parser each level calls and how each level builds its node, so the closed forms decide the mapping for type expressions of any depth in every position: flat arrow lists, flat tuples of []-level terms, parentheses only group, "
+        "base-type table, Name[T, U], frt.TupleN[...], func (A,B) C.",
+        "Per-expression enumeration is not performed; it follows from the grammar for a correct recursive-descent reading.",
+        "DESIGN.md §3 C15",
+    ),
+})
+
 NOT_APPLICABLE = {
 }
 
